@@ -433,6 +433,12 @@ class PL2Scorer(WeightLengthScorer):
         self.qf = qf
         self.setup(searcher, fieldname, text)
 
+    def supports_block_quality(self):
+        # PL2 is not monotonic in weight and length (for frequent terms a
+        # higher weight can lower the score), so the score of (max weight, min
+        # length) is not an upper bound for a block
+        return False
+
     def _score(self, weight, length):
         return pl2(weight, self.cf, self.qf, self.dc, length, self.avgfl,
                    self.c)
